@@ -802,8 +802,9 @@ func (s *Service) notifyMessage(g *Group, msg GroupMessage, st *WsStream) (e err
 		go func() {
 			defer close(st.done)
 			for {
-				var nothing protobuf.Message
-				err := st.r.ReadMsg(nothing)
+				// whatever the sender writes is discarded, but the reader needs a
+				// message to decode into
+				err := st.r.ReadMsg(&pb.GroupMsg{})
 				s.logger.Tracef("group: sessionID %s close from the sender %v", msg.SessionID, err)
 				return
 			}
